@@ -33,7 +33,7 @@ fn plan(tier: Tier) -> Plan {
             exhaustive: false,
         },
         Tier::Thorough => Plan {
-            cases: 900_000,
+            cases: 6_000_000,
             time_cap_s: 480,
             case_timeout_s: 10,
             exhaustive: false,
